@@ -68,7 +68,6 @@ def opsC14 : Handler := fun st fields =>
         | none => some (st, s!"ok\t{readingOut rd}\tnone")
       | _ => some (st, s!"ok\t{readingOut rd}")
   | ["c14.ref", name] => some (st, verdictOut (Name.ofString name))
-  | ["c14.excluded", name] => some (st, if excluded (Name.ofString name) then "1" else "0")
   -- translator self-check: the generated row of a listed name
   | ["c14.row", name] =>
     match findRow (Name.ofString name), invTree.get? (Name.ofString name) with
